@@ -3342,6 +3342,17 @@ func (e *exprCtx) selPhi1(x *ssa.Phi) (string, bool) {
 			a, b = b, a
 		}
 	}
+	// a value chosen by one test (`v := a; if c { v = b }` or the if/else form): sel{c: b | a}, with the test in its
+	// canonical spelling so that the inverted form reads the same
+	if len(arms) == 2 && len(arms[0].lits) == 1 && len(arms[1].lits) == 1 && negGuard(arms[0].lits[0]) == arms[1].lits[0] && len(arms[0].lits[0]) < 400 {
+		a, b := arms[0], arms[1]
+		if b.lits[0] < a.lits[0] {
+			a, b = b, a
+		}
+		if !strings.Contains(a.lits[0], "phi@") {
+			return "sel{" + a.lits[0] + ": " + a.val + " | " + b.val + "}", true
+		}
+	}
 	// (a general rendering of every phi with its selecting conditions was tried and dropped: conditions mention phis
 	// that mention conditions, and the strings explode; what remains path-insensitive is said in DESIGN.md)
 	return "", false
